@@ -7,8 +7,16 @@ From Coq Require Import List ZArith NArith Bool Arith.
 Import ListNotations.
 From Verif.C03 Require Export Model.
 
-Record obs_call := mkObs { o_res : N; o_idle : list Z; o_trace : list (list Z); o_log : list nat }.
+(* observations are packed: a register vector is one number (zig-zag of every component, 16 bits each) *)
+Record obs_call := mkObs { o_res : N; o_idle : N; o_trace : list N; o_log : list nat }.
 Record tcase := mkCase { c_lim : option nat; c_faults : list (nat * fkind); c_ops : list api; c_obs : list obs_call; c_twin : bool }.
+
+Definition zz (z : Z) : N := match z with Z0 => 0%N | Zpos p => Npos (xO p) | Zneg p => Pos.pred_N (xO p) end.
+Fixpoint pack (l : list Z) : N :=
+  match l with
+  | [] => 1%N
+  | z :: r => (N.min (zz z) 65535 + 65536 * pack r)%N
+  end.
 
 Definition fuel0 : nat := 80.
 
@@ -24,30 +32,27 @@ Definition snap_vec (x : snap) : list Z :=
       [a; b; c; if p then 0 else 1; Z.of_nat n1; Z.of_nat n2; Z.of_nat n3; Z.of_nat n4; if g then 1 else 0]%Z
   end.
 
+Record mobs := mkM { m_res : N; m_idle : list Z; m_trace : list (list Z); m_log : list nat }.
+
 Fixpoint run_hist (lim : option nat) (faults : list (nat * fkind)) (fixed : bool) (ops : list api) (s : state)
-  : list obs_call * state :=
+  : list mobs * state :=
   match ops with
   | [] => ([], s)
   | a :: r =>
       let (s1, res) := api_exec lim faults fixed fuel0 a (set_trace [] s) in
       let (os, sf) := run_hist lim faults fixed r s1 in
-      (mkObs (res_code res) (idle_vec s1) (map snap_vec (rev (trace s1))) (log s1) :: os, sf)
+      (mkM (res_code res) (idle_vec s1) (map snap_vec (rev (trace s1))) (log s1) :: os, sf)
   end.
 
-Definition run_model (fixed : bool) (c : tcase) : list obs_call := fst (run_hist (c_lim c) (c_faults c) fixed (c_ops c) init).
+Definition run_model (fixed : bool) (c : tcase) : list mobs := fst (run_hist (c_lim c) (c_faults c) fixed (c_ops c) init).
 Definition final_state (fixed : bool) (c : tcase) : state := snd (run_hist (c_lim c) (c_faults c) fixed (c_ops c) init).
 
-Definition zl_eqb (a b : list Z) : bool := if list_eq_dec Z.eq_dec a b then true else false.
 Definition nl_eqb (a b : list nat) : bool := if list_eq_dec Nat.eq_dec a b then true else false.
-Fixpoint zll_eqb (a b : list (list Z)) : bool :=
-  match a, b with
-  | [], [] => true
-  | x :: a', y :: b' => zl_eqb x y && zll_eqb a' b'
-  | _, _ => false
-  end.
-Definition obs_eqb (a b : obs_call) : bool :=
-  N.eqb (o_res a) (o_res b) && zl_eqb (o_idle a) (o_idle b) && zll_eqb (o_trace a) (o_trace b) && nl_eqb (o_log a) (o_log b).
-Fixpoint obsl_eqb (a b : list obs_call) : bool :=
+Definition Nl_eqb (a b : list N) : bool := if list_eq_dec N.eq_dec a b then true else false.
+Definition obs_eqb (a : obs_call) (b : mobs) : bool :=
+  N.eqb (o_res a) (m_res b) && N.eqb (o_idle a) (pack (m_idle b)) && Nl_eqb (o_trace a) (map pack (m_trace b)) &&
+  nl_eqb (o_log a) (m_log b).
+Fixpoint obsl_eqb (a : list obs_call) (b : list mobs) : bool :=
   match a, b with
   | [], [] => true
   | x :: a', y :: b' => obs_eqb x y && obsl_eqb a' b'
@@ -56,7 +61,7 @@ Fixpoint obsl_eqb (a b : list obs_call) : bool :=
 
 (* the behavioural probe: when the model's final state is idle (nothing pending, flag clear) the runtime must
    behave as the fresh twin that replayed only the completed effects *)
-Definition check_run (c : tcase) (r : list obs_call * state) : bool :=
+Definition check_run (c : tcase) (r : list mobs * state) : bool :=
   obsl_eqb (c_obs c) (fst r) && implb (idle_full (snd r)) (c_twin c).
 Definition run_both (fixed : bool) (c : tcase) := run_hist (c_lim c) (c_faults c) fixed (c_ops c) init.
 Definition check_with (fixed : bool) (c : tcase) : bool := check_run c (run_both fixed c).
